@@ -62,6 +62,7 @@ type Task struct {
 	Panic      any
 	PanicStack string
 	releases   int
+	firstAcq   time.Time // instant of the first lock acquisition since MarkOp (zero: none yet)
 }
 
 type lockState struct {
@@ -446,7 +447,31 @@ func (s *Sched) acquired(m any, t *Task, mode int) {
 	} else {
 		ls.readers[t]++
 	}
+	if t != nil && t.firstAcq.IsZero() {
+		t.firstAcq = time.Now()
+	}
 	s.mu.Unlock()
+}
+
+// MarkOp is called by a harness task before an operation on the system under test;
+// FirstAcquire then tells at which (simulated) instant the operation first obtained a lock,
+// i.e. the earliest instant at which it can have looked at shared state.
+func (s *Sched) MarkOp() {
+	if t := s.cur(); t != nil {
+		s.mu.Lock()
+		t.firstAcq = time.Time{}
+		s.mu.Unlock()
+	}
+}
+
+func (s *Sched) FirstAcquire() (time.Time, bool) {
+	t := s.cur()
+	if t == nil || s.pol.Overlap > 1 {
+		return time.Time{}, false
+	}
+	s.mu.Lock()
+	defer s.mu.Unlock()
+	return t.firstAcq, !t.firstAcq.IsZero()
 }
 
 func (s *Sched) released(m any, mode int) {
